@@ -111,13 +111,13 @@ def do_reply_cut(cfg, cut, api, lo=0, hi=None):
     return ok and (raised or k == len(ops))                   # never silently fewer results than operations
 
 
-SH = 16          # offsets per shard
+SH = 8           # offsets per shard (one traced exchange costs ~20 CPU s)
 for cfg in CONFIGS + QCONFIGS:
     for api in ('operate', 'process'):
         total = BASE[cfg][2]
         for lo in range(0, total + 1, SH):
             hi = min(lo + SH, total + 1)
-            quick = len(cfg) == 3 and (api == 'operate' or (cfg[:2] == (1, 0) and lo in (16, 64)))
+            quick = len(cfg) == 3 and ((api == 'operate' and (cfg[0] == 0 or (lo // SH) % 2 == 1)) or (api == 'process' and cfg[:2] == (1, 0) and lo in (24, 72)))
             define(globals(), 'C13', 'reply_cut_%sdepth%d_multiple%d_%s_%03d' % ('short_' if len(cfg) == 3 else '', cfg[0], cfg[1], api, lo), ['cut'],
                    "return do_reply_cut(%r, cut, %r, %d, %d)" % (cfg, api, lo, hi), ['0 <= cut < %d' % (hi - lo)],
                    tier='quick' if quick else 'thorough', timeout=3000, path_timeout=600, drives=DRIVES, stubs=STUBS,
@@ -144,10 +144,10 @@ def do_request_cut(cfg, ccut, lo=0, hi=None):
 
 for cfg in CONFIGS + QCONFIGS[1:2]:
     sent = BASE[cfg][3]
-    for lo in range(0, sent + 1, 24):
-        hi = min(lo + 24, sent + 1)
+    for lo in range(0, sent + 1, 12):
+        hi = min(lo + 12, sent + 1)
         define(globals(), 'C13', 'request_cut_%sdepth%d_multiple%d_%03d' % ('short_' if len(cfg) == 3 else '', cfg[0], cfg[1], lo), ['ccut'], "return do_request_cut(%r, ccut, %d, %d)" % (cfg, lo, hi),
-               ['0 <= ccut < %d' % (hi - lo)], tier='quick' if len(cfg) == 3 and lo in (24, 72) else 'thorough', timeout=3000, path_timeout=600, drives=DRIVES, stubs=STUBS,
+               ['0 <= ccut < %d' % (hi - lo)], tier='quick' if len(cfg) == 3 and lo in (36, 84) else 'thorough', timeout=3000, path_timeout=600, drives=DRIVES, stubs=STUBS,
                symbolic=['ccut: EVERY byte offset in [%d, %d) of the client-to-server stream after which the connection breaks (peer sees a partial frame, then closes)' % (lo, hi)],
                bounds='same exchange (depth=%d, multiple=%d) with the client-to-server stream (%d bytes) cut at every offset of the shard' % (cfg[0], cfg[1], sent), outside='')
 
@@ -223,8 +223,8 @@ for cfg in DROP_CFG:
                   'lost and the following ones arrive: every yielded value belongs to its own request (no value of a later request is paired with an earlier '
                   'one) and the result stream ends with an error' % cfg, outside='loss of several replies')
 
-define(globals(), 'C13', 'proxy_discards_and_reconnects_quick', ['cut'], "return do_proxy(28 + 4 * cut, 1)", ['0 <= cut < 12'],
+define(globals(), 'C13', 'proxy_discards_and_reconnects_quick', ['cut'], "return do_proxy(28 + 9 * cut, 1)", ['0 <= cut < 6'],
        timeout=3000, path_timeout=600, drives=DRIVES + ['cpppo.server.enip.get_attribute.proxy.read', 'cpppo.server.enip.get_attribute.proxy.open_gateway',
                                                         'cpppo.server.enip.get_attribute.proxy.close_gateway', 'cpppo.server.enip.get_attribute.proxy.__exit__'],
-       stubs=STUBS, bounds='proxy.read (depth 1) over a connection cut at every 4th reply-stream offset after the Register reply: either correct values or an exception '
+       stubs=STUBS, bounds='proxy.read (depth 1) over a connection cut at every 9th reply-stream offset after the Register reply: either correct values or an exception '
                            'with the gateway discarded; the next read (fresh connection) returns the correct data', outside='other offsets (thorough tier)')
